@@ -35,13 +35,26 @@ LEVEL_TEXT = (
     "has unit length; get_source_field multiplies by strength and by -s mu0 (s = 2 pi i f, Laplace s = -f, "
     "nothing for frequency=None); electrodes -> (centre, azimuth, elevation, length) -> electrodes is the "
     "identity under the angle contract; the magnetic dipole is a closed planar square loop of area = length "
-    "with right-handed normal rotation(az, el).")
+    "with right-handed normal rotation(az, el). Request histories on ONE source instance (Model/SourceHist.v, "
+    "a machine with an explicit heap of arrays: fresh unit vector per request, Field(data=...) aliases it for "
+    "real-valued requests and copies it for complex ones, in-place scaling, in-place edits of returned arrays "
+    "by the caller): for ALL histories every request returns scale f (vecof grid) -- a function of (grid, "
+    "source, frequency) only --, returned arrays are pairwise distinct and hold what was returned changed only "
+    "by the caller's own edits, nothing is kept with the instance (induction over the history with an "
+    "invariant); the same holds for a variant that keeps the vector with the instance but hands out copies, "
+    "and is refuted (vm_compute witness 3, 9, 27) for the variant that hands out the stored array.")
 LEVEL_NOTE = (
     "Hand model tied to the source by correspondence only (not generated). Not proved / not modelled: "
     "np.round(., 9) of nodes and electrodes (inputs are generated so that it is the identity; asserted), IEEE "
     "rounding (x_len = ||xmax-xmin||/||p1-p0|| is modelled by its exact value |ar-al|), scipy cosdg/sindg, "
     "np.sqrt, np.angle (oracles; contracts: sin^2+cos^2=1, quarter-turn shifts, r cos(angle)=x, r sin(angle)=y, "
-    "sqrt(x)^2=x), np.allclose in Dipole.__init__ (modelled as equality), TxMagneticPoint (discretize). "
+    "sqrt(x)^2=x), the identical-electrodes test of Dipole.__init__ (modelled as EQUALITY of the two electrodes; "
+    "the pinned np.allclose with its default relative tolerance refuses valid short dipoles in projected "
+    "coordinates: reported through known_checks, signature 'C10: Dipole.__init__ rejects distinct electrodes "
+    "...'), TxMagneticPoint (discretize). The history machine's shape (no per-instance / module state, fresh "
+    "arrays, only sfield.field updated in place) is read off fields.py by an ast anchor on every run (fails "
+    "closed) and exercised by the history stream; Vec / vecof / scale of the machine are abstract in the "
+    "theorems and instantiated with dipole_vector / source_scale by the correspondence. "
     "The pinned code violates the moment clause for a segment lying in the UPPER boundary plane of the grid "
     "(zero extent in a direction whose coordinate equals the last node): no cell is visited, the vector is "
     "NaN; theorem dipole_on_upper_boundary_refuted; reported through known_checks until repaired.")
@@ -68,7 +81,32 @@ WHAT_UPPER = ("[grid h=[1,1]^3, origin 0; dipole (0.5,2,0.5)->(1.5,2,0.5): vecto
               "cell (min_max_ind returns n, the loop is range(n, n)); all three components are then 0/0 = NaN "
               "after the 'Normalizing Source' warning; the same segment on the FIRST node is handled correctly")
 
-HEADER = "From Coq Require Import Qabs Qround.\n" + K.CASE_HEADER + """From V Require Import Model.Source.
+# Output of the case files: Coq's printer needs ~5-10 ms per numeral (number notations), which dominated the
+# run time of the streams (measured: computing a dump 0.06 s, printing it 0.3-0.7 s).  All numbers are therefore
+# rounded down to the 2^-100 lattice (absolute error < 1e-30, comparator tolerances are >= 1e-18 absolute) and
+# written as ONE decimal string per answer; an entry the model calls an error is the token E.
+FXBITS = 100
+SIG_CLOSE = ("C10: Dipole.__init__ rejects distinct electrodes as identical (np.allclose relative to the "
+             "absolute coordinates)")
+WHAT_CLOSE = ("[emg3d.TxElectricDipole((500000., 500000., 6000000., 6000050., -100., -100.)): ValueError 'The two "
+              "electrodes are identical ...' although the electrodes are 50 m apart; required: a dipole whose source "
+              "vector sums to (0, 50, 0) and whose electrodes -> (centre, azimuth, elevation, length) -> electrodes "
+              "round trip returns the same electrodes] electrodes.Dipole.__init__ tests np.allclose(points[0], "
+              "points[1]) with the default rtol=1e-5 RELATIVE to the coordinates: in projected coordinates "
+              "(x ~ 5e5, y ~ 6e6) every dipole with |dx| <= ~5 m, |dy| <= ~60 m, |dz| <= 1e-5 |z| is refused (also "
+              "TxMagneticDipole given by two electrodes, whose loop corners are compared); Wire.__eq__ uses the same "
+              "relative test, so two sources 50 m apart at such coordinates compare equal")
+
+
+HEADER = "From Coq Require Import String DecimalString Decimal.\nFrom Coq Require Import Qabs Qround.\n" \
+    + K.CASE_HEADER + """From V Require Import Model.Source Model.SourceHist.
+Definition fx (q : Q) : Z := Qfloor (q * (1267650600228229401496703205376 # 1))%Q.
+Definition zstr (z : Z) : string := NilEmpty.string_of_int (Z.to_int z).
+Definition sjoin (l : list string) : string := String.concat " " l.
+Definition qstr (q : Q) : string := zstr (fx q).
+Definition cstr (o : option (Q * Q)) : string :=
+  match o with Some c => (qstr (fst c) ++ " " ++ qstr (snd c))%string | None => "E E"%string end.
+Definition pstr (p : P3 Q) : string := sjoin [qstr (px p); qstr (py p); qstr (pz p)].
 Definition res_head (r : SrcRes Q) : list Z :=
   match r with
   | SErr c => [c]
@@ -301,16 +339,32 @@ def coq_dipole_case(k, g, pts, clamp):
     L = [f"Definition G{k} := {coq_grid(g)}.",
          f"Definition R{k} := Eval vm_compute in dipole_vector Qle_bool {V.coq_bool(clamp)} G{k} "
          f"[{'; '.join(coq_p3(p) for p in pts)}].",
-         f"Eval vm_compute in res_head R{k}."]
+         f"Eval vm_compute in sjoin (map zstr (res_head R{k}))."]
     for c in range(3):
         s = fshape(g['shape'], c)
-        L.append(f"Eval vm_compute in res_dump out_q R{k} {c} {s[0]} {s[1]} {s[2]}.")
+        L.append(f"Eval vm_compute in sjoin (res_dump qstr R{k} {c} {s[0]} {s[1]} {s[2]}).")
     return '\n'.join(L)
 
 
 def ints(ans):
     import re
     return [int(x) for x in re.findall(r'-?\d+', ans)]
+
+
+def toks(ans):
+    """Tokens of a string answer ("..."%string)."""
+    return ans.replace('%string', '').replace('"', ' ').split()
+
+
+def fx_vals(ans):
+    """Fixed-point string answer -> list of floats (None for the error token)."""
+    return [None if t == 'E' else float(Fr(int(t), 2 ** FXBITS)) for t in toks(ans)]
+
+
+def fx_cvals(ans):
+    """Fixed-point string answer of complex entries -> list of complex (None = error entry)."""
+    v = fx_vals(ans)
+    return [None if v[i] is None else complex(v[i], v[i + 1]) for i in range(0, len(v) - 1, 2)]
 
 
 def cmp_arrays(impl, model, scale):
@@ -326,6 +380,12 @@ def cmp_arrays(impl, model, scale):
 
 def batches(items, per):
     return [items[i:i + per] for i in range(0, len(items), per)]
+
+
+# cases per generated Coq file.  Every file pays a fixed cost (loading the libraries and the first vm_compute:
+# measured 3-9 s CPU depending on load), so few, equally loaded files; all streams' files are evaluated in ONE
+# parallel batch (run_streams).
+PER_FILE = {'dip': 15, 'pt': 40, 'gsf': 20, 'cv': 75, 'fm': 8, 'hs': 4}
 
 
 # ------------------------------------------------------ part 1: dipole vector
@@ -345,12 +405,12 @@ def corr_dipole(ctx, n, dis, hist, samples, clamp):
         assert all(float(np.round(x, 9)) == x for x in allv), "input affected by the 9-decimal rounding"
         cases.append({'kind': kind, 'grid': g, 'pts': pts})
     texts = []
-    for b, chunk in enumerate(batches(list(enumerate(cases)), 8)):
+    for b, chunk in enumerate(batches(list(enumerate(cases)), PER_FILE['dip'])):
         texts.append((f"c10_dip_{b}", HEADER + '\n'.join(
             coq_dipole_case(k, c['grid'], c['pts'], clamp) for k, c in chunk) + '\n'))
-    res = V.coq_eval_many(texts)
+    res = yield texts
     nontriv = set()
-    for b, chunk in enumerate(batches(list(enumerate(cases)), 8)):
+    for b, chunk in enumerate(batches(list(enumerate(cases)), PER_FILE['dip'])):
         rc, out = res[f"c10_dip_{b}"]
         if rc != 0:
             dis.append({'what': 'Source model does not evaluate (dipole cases)', 'log': out[-1500:]})
@@ -391,7 +451,7 @@ def corr_dipole(ctx, n, dis, hist, samples, clamp):
                         dis.append({'what': 'model predicts 0/0 (NaN) component, implementation is finite',
                                     'case': brief, 'component': 'xyz'[comp]})
                     continue
-                mv = [float(x) for x in V.parse_pairs(ans[4 * j + 1 + comp])]
+                mv = fx_vals(ans[4 * j + 1 + comp])
                 bad = cmp_arrays(iv, mv, scale)
                 if bad:
                     dis.append({'what': '_dipole_vector differs from Model.Source.dipole_vector',
@@ -450,8 +510,8 @@ def coq_point_case(k, g, coo):
     for c in range(3):
         s = fshape(g['shape'], c)
         sel = ['fst (fst t)', 'snd (fst t)', 'snd t'][c]
-        L.append(f"Eval vm_compute in match R{k} with None => [] | Some t => "
-                 f"dump3 out_q {s[0]} {s[1]} {s[2]} ({sel}) end.")
+        L.append(f"Eval vm_compute in match R{k} with None => EmptyString | Some t => "
+                 f"sjoin (dump3 qstr {s[0]} {s[1]} {s[2]} ({sel})) end.")
     return '\n'.join(L)
 
 
@@ -476,12 +536,12 @@ def corr_point(ctx, n, dis, hist, samples):
         coo = p + [gen_angle(rng, False), gen_angle(rng, True)]
         cases.append({'kind': kind, 'grid': g, 'coo': coo})
     texts = []
-    for b, chunk in enumerate(batches(list(enumerate(cases)), 10)):
+    for b, chunk in enumerate(batches(list(enumerate(cases)), PER_FILE['pt'])):
         texts.append((f"c10_pt_{b}", HEADER + '\n'.join(
             coq_point_case(k, c['grid'], c['coo']) for k, c in chunk) + '\n'))
-    res = V.coq_eval_many(texts)
+    res = yield texts
     nontriv = set()
-    for b, chunk in enumerate(batches(list(enumerate(cases)), 10)):
+    for b, chunk in enumerate(batches(list(enumerate(cases)), PER_FILE['pt'])):
         rc, out = res[f"c10_pt_{b}"]
         if rc != 0:
             dis.append({'what': 'Source model does not evaluate (point cases)', 'log': out[-1500:]})
@@ -503,7 +563,7 @@ def corr_point(ctx, n, dis, hist, samples):
                 nontriv.add(('pt-err',))
                 continue
             for comp in range(3):
-                mv = [float(x) for x in V.parse_pairs(ans[4 * j + 1 + comp])]
+                mv = fx_vals(ans[4 * j + 1 + comp])
                 bad = cmp_arrays(impl['f'][comp], mv, 1.0)
                 if bad:
                     dis.append({'what': '_point_vector differs from Model.Source.point_vector',
@@ -565,7 +625,7 @@ def coq_gsf_case(k, g, src, freq, clamp):
     st = complex(src['strength'])
     stc = isinstance(src['strength'], complex)
     fq = 'None' if freq is None else f"(Some {V.q(freq)})"
-    scale = (f"(fun v : Q => out_sc (source_scale Qle_bool {V.q(math.pi)} {V.q(sc.mu_0)} {fq} "
+    scale = (f"(fun v : Q => cstr (source_scale Qle_bool {V.q(math.pi)} {V.q(sc.mu_0)} {fq} "
              f"({V.q(st.real)}, {V.q(st.imag)}) {V.coq_bool(stc)} v))")
     L = [f"Definition G{k} := {coq_grid(g)}."]
     if src['type'] == 'point':
@@ -576,15 +636,15 @@ def coq_gsf_case(k, g, src, freq, clamp):
         for c in range(3):
             s = fshape(g['shape'], c)
             sel = ['fst (fst t)', 'snd (fst t)', 'snd t'][c]
-            L.append(f"Eval vm_compute in match R{k} with None => [] | Some t => "
-                     f"dump3 {scale} {s[0]} {s[1]} {s[2]} ({sel}) end.")
+            L.append(f"Eval vm_compute in match R{k} with None => EmptyString | Some t => "
+                     f"sjoin (dump3 {scale} {s[0]} {s[1]} {s[2]} ({sel})) end.")
     else:
         pts = src['loop'] if src['type'] == 'mag' else src['pts']
         L.append(f"Definition R{k} := Eval vm_compute in dipole_vector Qle_bool {V.coq_bool(clamp)} G{k} "
                  f"[{'; '.join(coq_p3(p) for p in pts)}].")
         for c in range(3):
             s = fshape(g['shape'], c)
-            L.append(f"Eval vm_compute in res_dump {scale} R{k} {c} {s[0]} {s[1]} {s[2]}.")
+            L.append(f"Eval vm_compute in sjoin (res_dump {scale} R{k} {c} {s[0]} {s[1]} {s[2]}).")
     return '\n'.join(L)
 
 
@@ -628,12 +688,12 @@ def corr_gsf(ctx, n, dis, hist, samples, clamp):
         src['strength'] = gen_strength(rng)
         cases.append({'grid': g, 'src': src, 'freq': gen_freq(rng)})
     texts = []
-    for b, chunk in enumerate(batches(list(enumerate(cases)), 8)):
+    for b, chunk in enumerate(batches(list(enumerate(cases)), PER_FILE['gsf'])):
         texts.append((f"c10_gsf_{b}", HEADER + '\n'.join(
             coq_gsf_case(k, c['grid'], c['src'], c['freq'], clamp) for k, c in chunk) + '\n'))
-    res = V.coq_eval_many(texts)
+    res = yield texts
     nontriv = set()
-    for b, chunk in enumerate(batches(list(enumerate(cases)), 8)):
+    for b, chunk in enumerate(batches(list(enumerate(cases)), PER_FILE['gsf'])):
         rc, out = res[f"c10_gsf_{b}"]
         if rc != 0:
             dis.append({'what': 'Source model does not evaluate (get_source_field cases)',
@@ -652,8 +712,8 @@ def corr_gsf(ctx, n, dis, hist, samples, clamp):
             if len(samples) < 8 and k % 9 == 0:
                 samples.append(brief)
             impl = run_gsf_impl(c['grid'], src, freq)
-            vals = [V.parse_cpairs(ans[3 * j + comp]) for comp in range(3)]
-            merr = any(v and v[0][0] == -999 for v in vals)
+            vals = [fx_cvals(ans[3 * j + comp]) for comp in range(3)]
+            merr = any(v and v[0] is None for v in vals)
             if merr != bool(impl['err']):
                 dis.append({'what': 'get_source_field error behaviour differs from the model',
                             'case': brief, 'impl': impl.get('msg', 'ok'), 'model': 'error' if merr else 'ok'})
@@ -665,7 +725,7 @@ def corr_gsf(ctx, n, dis, hist, samples, clamp):
                 dis.append({'what': "get_source_field raised the 'Normalizing Source' warning",
                             'case': brief})
                 continue
-            mvs = [[complex(float(a), float(b_)) for a, b_ in vals[comp]] for comp in range(3)]
+            mvs = vals
             scale = max(max(float(np.max(np.abs(a))) if a.size else 0.0 for a in impl['f']),
                         max([abs(x) for m_ in mvs for x in m_] + [0.0]), 1e-300)
             # floor: entries of single segments (a wire that returns on itself cancels to ~1e-22)
@@ -748,15 +808,27 @@ class Rec:
             self.trig(a)
 
 
-def gen_conv_case(rng):
+def gen_conv_case(rng, proj=False):
+    """proj=True: projected (UTM-like) absolute coordinates, x 1e5..8e5, y 1e6..8e6, z -4000..0 (multiples of
+    1/8: exact floats), electrodes a few metres to 50 m apart -- the coordinates real surveys come in."""
     t = rng.choice(['p2d', 'd2p', 'd2p', 'loop', 'loop', 'tx_point', 'tx_point', 'tx_flat', 'tx_flat',
                     'tx_pair', 'tx_pair', 'tx_same'])
     mag = rng.random() < 0.5
-    c = [rng.randint(-64, 64) / 8 for _ in range(3)]
+    off = [0.0, 0.0, 0.0]
+    if proj:
+        off = [float(rng.randint(100000, 800000)), float(rng.randint(1000000, 8000000)),
+               -float(rng.randint(0, 4000))]
+    c = [o + rng.randint(-64, 64) / 8 for o in off]
     az, el = gen_angle(rng, False), gen_angle(rng, True)
     ln = rng.randint(1, 64) / 8
-    p0 = [rng.randint(-64, 64) / 8 for _ in range(3)]
-    p1 = [rng.randint(-64, 64) / 8 for _ in range(3)]
+    p0 = [o + rng.randint(-64, 64) / 8 for o in off]
+    if proj:
+        k = 400 if rng.random() < 0.3 else 64           # up to 50 m / up to 8 m per direction
+        p1 = [a + rng.randint(-k, k) / 8 for a in p0]
+        if rng.random() < 0.5:
+            p1[2] = p0[2]               # towed / sea-bottom sources are horizontal
+    else:
+        p1 = [rng.randint(-64, 64) / 8 for _ in range(3)]
     u = rng.random()
     if u < 0.45:                      # axis-aligned / planar / vertical pairs
         for d in rng.sample(range(3), rng.choice([1, 2])):
@@ -765,7 +837,16 @@ def gen_conv_case(rng):
         p1[rng.randrange(3)] += 1.0
     if t == 'tx_same':
         p1 = list(p0)
-    return {'t': t, 'mag': mag, 'c': c, 'az': az, 'el': el, 'len': ln, 'p0': p0, 'p1': p1}
+    return {'t': t, 'mag': mag, 'c': c, 'az': az, 'el': el, 'len': ln, 'p0': p0, 'p1': p1, 'proj': proj}
+
+
+def conv_tol(c, vals):
+    """Absolute tolerance for electrode coordinates / angles / lengths of a conversion case: 1e-9 of the
+    dipole's own size plus a few ulp of the absolute coordinates (NOT 1e-9 of the coordinates, which would be
+    millimetres in projected coordinates)."""
+    ext = max([abs(b - a) for a, b in zip(c['p0'], c['p1'])] + [c['len'], 1.0])
+    big = max([abs(x) for x in vals] + [1.0])
+    return 1e-9 * ext + 16 * 2.3e-16 * big
 
 
 def run_conv_impl(c):
@@ -789,6 +870,7 @@ def run_conv_impl(c):
             s = cls(np.array([c['p0'], c['p1']], float))
         return [list(map(float, r)) for r in s.points]
     except ValueError as e:
+        c['_msg'] = str(e)[:60]
         return 'ValueError'
     except Exception as e:      # noqa
         return f"{type(e).__name__}: {e}"[:100]
@@ -800,7 +882,7 @@ def coq_conv_case(k, c):
     if t == 'p2d':
         rec.trig(c['az']), rec.trig(c['el'])
         body = (f"let r := point_to_dipole ORA {coq_p3(c['c'])} {V.q(c['az'])} {V.q(c['el'])} {V.q(c['len'])} "
-                f"in [out_p (fst r); out_p (snd r)]")
+                f"in sjoin [pstr (fst r); pstr (snd r)]")
         body = body.replace('ORA', '(lookup1 COS) (lookup1 SIN)')
         ct = '[' + '; '.join(f"({V.q(a)}, {V.q(v)})" for a, v in rec.r['cos']) + ']'
         st = '[' + '; '.join(f"({V.q(a)}, {V.q(v)})" for a, v in rec.r['sin']) + ']'
@@ -810,14 +892,14 @@ def coq_conv_case(k, c):
         sq = '[' + '; '.join(f"({V.q(a)}, {V.q(v)})" for a, v in rec.r['sqrt']) + ']'
         an = '[' + '; '.join(f"({V.q(a)}, {V.q(b)}, {V.q(v)})" for a, b, v in rec.r['angle']) + ']'
         body = (f"let r := dipole_to_point (lookup1 {sq}) (lookup2 {an}) {coq_p3(c['p0'])} {coq_p3(c['p1'])} "
-                f"in [[out_q (fst (fst r)); out_q (snd (fst r)); out_q (snd r)]]")
+                f"in sjoin [qstr (fst (fst r)); qstr (snd (fst r)); qstr (snd r)]")
     elif t == 'loop':
         rec.loop(c['az'], c['el'], c['len'])
         ct = '[' + '; '.join(f"({V.q(a)}, {V.q(v)})" for a, v in rec.r['cos']) + ']'
         st = '[' + '; '.join(f"({V.q(a)}, {V.q(v)})" for a, v in rec.r['sin']) + ']'
         sq = '[' + '; '.join(f"({V.q(a)}, {V.q(v)})" for a, v in rec.r['sqrt']) + ']'
-        body = (f"map out_p (point_to_square_loop (lookup1 {ct}) (lookup1 {st}) (lookup1 {sq}) "
-                f"{coq_p3(c['c'])} {V.q(c['az'])} {V.q(c['el'])} {V.q(c['len'])})")
+        body = (f"sjoin (map pstr (point_to_square_loop (lookup1 {ct}) (lookup1 {st}) (lookup1 {sq}) "
+                f"{coq_p3(c['c'])} {V.q(c['az'])} {V.q(c['el'])} {V.q(c['len'])}))")
     else:
         if t == 'tx_point':
             rec.trig(c['az']), rec.trig(c['el'])
@@ -841,33 +923,38 @@ def coq_conv_case(k, c):
         if not rec.r['angle']:
             rec.r['angle'].append((Fr(0), Fr(0), 0.0))
         body = (f"match dipole_points Qle_bool {conv_oracles(rec.r)} {V.coq_bool(c['mag'])} {inp} "
-                f"{V.q(c['len'])} with None => [] | Some l => map out_p l end")
+                f"{V.q(c['len'])} with None => EmptyString | Some l => sjoin (map pstr l) end")
     return f"Eval vm_compute in ({body})."
 
 
 def corr_conv(ctx, n, dis, hist, samples):
     rng = ctx.rng
-    cases = [gen_conv_case(rng) for _ in range(n)]
+    cases = [gen_conv_case(rng, proj=(i % 3 == 2)) for i in range(n)]
     texts = []
-    for b, chunk in enumerate(batches(list(enumerate(cases)), 25)):
+    for b, chunk in enumerate(batches(list(enumerate(cases)), PER_FILE['cv'])):
         texts.append((f"c10_cv_{b}", HEADER + '\n'.join(coq_conv_case(k, c) for k, c in chunk) + '\n'))
-    res = V.coq_eval_many(texts)
+    res = yield texts
     nontriv = set()
-    for b, chunk in enumerate(batches(list(enumerate(cases)), 25)):
+    for b, chunk in enumerate(batches(list(enumerate(cases)), PER_FILE['cv'])):
         rc, out = res[f"c10_cv_{b}"]
         if rc != 0:
             dis.append({'what': 'Source model does not evaluate (conversion cases)', 'log': out[-1500:]})
             continue
         ans = V.eval_answers(out)
         for j, (k, c) in enumerate(chunk):
-            key = f"conv/{c['t']}" + ('/magnetic' if c['mag'] and c['t'].startswith('tx') else '')
+            key = f"conv/{'proj/' if c['proj'] else ''}{c['t']}" + (
+                '/magnetic' if c['mag'] and c['t'].startswith('tx') else '')
             hist[key] = hist.get(key, 0) + 1
             if len(samples) < 10 and k % 11 == 0:
                 samples.append(c)
             impl = run_conv_impl(c)
-            mv = [float(x) for x in V.parse_pairs(ans[j])]
+            mv = fx_vals(ans[j])
             if isinstance(impl, str):
-                if not (impl == 'ValueError' and not mv):
+                if impl == 'ValueError' and mv and 'identical' in c.get('_msg', '') and c['p0'] != c['p1']:
+                    dis.append({'what': 'Dipole.__init__ rejects DISTINCT electrodes as identical (the model '
+                                        'compares the electrodes for equality)', 'signature': SIG_CLOSE,
+                                'case': c, 'impl': 'ValueError: ' + c['_msg'], 'model': mv[:6]})
+                elif not (impl == 'ValueError' and not mv):
                     dis.append({'what': 'electrode conversion raised where the model returns points',
                                 'case': c, 'impl': impl, 'model': mv[:6]})
                 else:
@@ -878,12 +965,12 @@ def corr_conv(ctx, n, dis, hist, samples):
                 dis.append({'what': 'electrode conversion: number of values differs', 'case': c,
                             'impl': iv, 'model': mv})
                 continue
-            scale = max(1.0, max(abs(x) for x in iv))
-            bad = [q for q in range(len(iv)) if not abs(iv[q] - mv[q]) <= 1e-9 * scale]
+            tol = conv_tol(c, iv)
+            bad = [q for q in range(len(iv)) if not abs(iv[q] - mv[q]) <= tol]
             if bad:
                 dis.append({'what': f"electrodes.{c['t']} differs from the model", 'case': c,
                             'index': bad[0], 'impl': iv[bad[0]], 'model': mv[bad[0]]})
-            nontriv.add((c['t'], c['mag'], c['az'] in ANGLES, c['el'] in ANGLES,
+            nontriv.add((c['t'], c['mag'], c['proj'], c['az'] in ANGLES, c['el'] in ANGLES,
                          sum(1 for d in range(3) if c['p0'][d] == c['p1'][d])))
     return len(cases), len(nontriv)
 
@@ -1175,7 +1262,7 @@ def coq_form_case(k, c, fmt, clamp):
     kst = kwq(c['kw']['strength'], lambda x: f"({V.q(complex(x).real)}, {V.q(complex(x).imag)})")
     klen = kwq(c['kw']['length'], lambda x: V.q(float(x)))
     kel = kwq(c['kw']['electric'], lambda x: V.coq_bool(bool(x)))     # python truth value
-    scale = (f"(fun v : Q => out_sc (source_scale Qle_bool {V.q(math.pi)} {V.q(sc.mu_0)} {fq} "
+    scale = (f"(fun v : Q => cstr (source_scale Qle_bool {V.q(math.pi)} {V.q(sc.mu_0)} {fq} "
              f"S{k} {V.coq_bool(stc)} v))")
     L = [f"Definition G{k} := {coq_grid(g)}.",
          f"Definition P{k} := gsf_plain Qle_bool {conv_oracles(rec.r)} {kst} {klen} {kel} {inp}.",
@@ -1184,7 +1271,7 @@ def coq_form_case(k, c, fmt, clamp):
          f"{V.coq_bool(clamp)} G{k} (map psnap (fst ps)) | None => SErr 7 end."]
     for comp in range(3):
         sh = fshape(g['shape'], comp)
-        L.append(f"Eval vm_compute in res_dump {scale} R{k} {comp} {sh[0]} {sh[1]} {sh[2]}.")
+        L.append(f"Eval vm_compute in sjoin (res_dump {scale} R{k} {comp} {sh[0]} {sh[1]} {sh[2]}).")
     return '\n'.join(L)
 
 
@@ -1200,20 +1287,19 @@ def corr_forms(ctx, n, dis, hist, samples, clamp):
              for i in range(n)]
     jobs = [(i, fmt) for i, c in enumerate(cases) for fmt in case_formats(c)]
     texts = []
-    for b, chunk in enumerate(batches(list(enumerate(jobs)), 6)):
+    for b, chunk in enumerate(batches(list(enumerate(jobs)), PER_FILE['fm'])):
         texts.append((f"c10_fm_{b}", HEADER + '\n'.join(
             coq_form_case(k, cases[i], fmt, clamp) for k, (i, fmt) in chunk) + '\n'))
-    res = V.coq_eval_many(texts)
+    res = yield texts
     model = {}
-    for b, chunk in enumerate(batches(list(enumerate(jobs)), 6)):
+    for b, chunk in enumerate(batches(list(enumerate(jobs)), PER_FILE['fm'])):
         rc, out = res[f"c10_fm_{b}"]
         if rc != 0:
             dis.append({'what': 'Source model does not evaluate (input-form cases)', 'log': out[-1500:]})
             continue
         ans = V.eval_answers(out)
         for j, (k, (i, fmt)) in enumerate(chunk):
-            model[(i, fmt)] = [[complex(float(a), float(b_)) for a, b_ in V.parse_cpairs(ans[3 * j + comp])]
-                               for comp in range(3)]
+            model[(i, fmt)] = [fx_cvals(ans[3 * j + comp]) for comp in range(3)]
     nforms, nontriv = 0, set()
     for i, c in enumerate(cases):
         impl = run_forms_impl(c)
@@ -1238,7 +1324,8 @@ def corr_forms(ctx, n, dis, hist, samples, clamp):
             mv = model.get((i, r['fmt']))
             if mv is None:
                 continue
-            merr = not any(mv)          # model: the call raises (all dumps empty)
+            # model: the call raises (all dumps empty, or entries the scaling rejects)
+            merr = not any(mv) or any(x is None for m_ in mv for x in m_)
             if merr or 'err' in r:
                 if merr != ('err' in r):
                     dis.append({'what': 'get_source_field error behaviour for these keywords differs '
@@ -1269,19 +1356,550 @@ def corr_forms(ctx, n, dis, hist, samples, clamp):
     return nforms, len(nontriv)
 
 
+# ------------------------- part 6: request histories on ONE source instance
+# Class: results of get_source_field must be a function of (grid, source, frequency) for EVERY history of
+# requests on one source instance, and returned arrays must not alias internal state (a memo on the instance
+# handed out without a copy and scaled in place by a real-valued request poisons all later requests).
+HIST_EDITS = ['times2', 'fill7', 'zero']
+
+
+def anchor_stateless():
+    """ast anchor (fails closed): get_source_field / _dipole_vector / _point_vector keep no per-instance or
+    module state and return fresh arrays.  Returns a list of problems (empty = the shape Model/SourceHist.v
+    describes with memo = false)."""
+    import ast
+    import os
+    import emg3d
+    path = os.path.join(os.path.dirname(emg3d.__file__), 'fields.py')
+    tree = ast.parse(open(path).read())
+    probs = []
+    funcs = {n.name: n for n in tree.body if isinstance(n, ast.FunctionDef)}
+    # module-level names that are NOT functions / classes / imports (possible mutable module state)
+    modvars = set()
+    for n in tree.body:
+        if isinstance(n, (ast.Assign, ast.AnnAssign, ast.AugAssign)):
+            for t_ in (n.targets if isinstance(n, ast.Assign) else [n.target]):
+                for q in ast.walk(t_):
+                    if isinstance(q, ast.Name):
+                        modvars.add(q.id)
+    modvars.discard('__all__')
+    for fn in ('get_source_field', '_dipole_vector', '_point_vector'):
+        f = funcs.get(fn)
+        if f is None:
+            probs.append(f"fields.{fn} not found")
+            continue
+        if f.decorator_list:
+            probs.append(f"fields.{fn} is decorated (possible cache)")
+        for d in f.args.defaults + [d for d in f.args.kw_defaults if d is not None]:
+            if not isinstance(d, ast.Constant):
+                probs.append(f"fields.{fn} has a non-constant default argument (possible state)")
+        for n in ast.walk(f):
+            if isinstance(n, (ast.Global, ast.Nonlocal)):
+                probs.append(f"fields.{fn} uses global/nonlocal")
+            if isinstance(n, ast.Name) and n.id in modvars:
+                probs.append(f"fields.{fn} uses the module variable {n.id}")
+            if isinstance(n, ast.Call) and isinstance(n.func, ast.Name) and \
+                    n.func.id in ('setattr', 'getattr', 'hasattr', 'vars', 'id', 'delattr'):
+                probs.append(f"fields.{fn} calls {n.func.id}(...)")
+            if isinstance(n, ast.Attribute) and n.attr == '__dict__':
+                probs.append(f"fields.{fn} touches __dict__")
+    g = funcs.get('get_source_field')
+    if g is not None:
+        parents = {}
+        for n in ast.walk(g):
+            for ch in ast.iter_child_nodes(n):
+                parents[ch] = n
+        ok_attrs = {'size', 'coordinates', 'points', 'strength'}
+        tx = {'TxElectricWire', 'TxElectricDipole', 'TxMagneticDipole'}
+
+        def callee(c):
+            fu = c.func
+            return fu.attr if isinstance(fu, ast.Attribute) else fu.id if isinstance(fu, ast.Name) else '?'
+        for n in ast.walk(g):
+            if not (isinstance(n, ast.Name) and n.id == 'source'):
+                continue
+            par = parents.get(n)
+            if isinstance(n.ctx, ast.Store):
+                if not (isinstance(par, ast.Assign) and isinstance(par.value, ast.Call)
+                        and callee(par.value) in tx | {'asarray'}):
+                    probs.append("get_source_field rebinds `source` to something else than np.asarray / Tx*")
+                continue
+            if isinstance(par, ast.Attribute) and par.value is n:
+                if not isinstance(par.ctx, ast.Load) or par.attr not in ok_attrs:
+                    probs.append(f"get_source_field uses source.{par.attr} "
+                                 f"({'store' if not isinstance(par.ctx, ast.Load) else 'read'})")
+                continue
+            if isinstance(par, ast.Call) and n in par.args and par.args[0] is n and \
+                    callee(par) in tx | {'isinstance', 'asarray'}:
+                continue
+            probs.append("get_source_field hands the source instance itself to other code: "
+                         + ast.unparse(par)[:80])
+        # the scaled array: sfield = Field(grid, data=vfield.field, frequency=frequency); only sfield.field is
+        # updated in place; vfield comes from one of the three vector functions
+        for n in ast.walk(g):
+            if isinstance(n, ast.AugAssign):
+                if ast.unparse(n.target) != 'sfield.field':
+                    probs.append("get_source_field updates in place: " + ast.unparse(n.target))
+            if isinstance(n, ast.Assign) and ast.unparse(n.targets[0]) == 'vfield':
+                if not (isinstance(n.value, ast.Call) and callee(n.value) in
+                        ('_point_vector', '_point_vector_magnetic', '_dipole_vector')):
+                    probs.append("get_source_field: vfield = " + ast.unparse(n.value)[:60])
+            if isinstance(n, ast.Assign) and ast.unparse(n.targets[0]) == 'sfield':
+                if ast.unparse(n.value) != 'Field(grid, data=vfield.field, frequency=frequency)':
+                    probs.append("get_source_field: sfield = " + ast.unparse(n.value)[:80])
+            if isinstance(n, ast.Return) and ast.unparse(n.value) != 'sfield':
+                probs.append("get_source_field returns " + ast.unparse(n.value)[:60])
+    for fn in ('_dipole_vector', '_point_vector'):
+        f = funcs.get(fn)
+        if f is None:
+            continue
+        fresh = [n for n in ast.walk(f) if isinstance(n, ast.Assign) and ast.unparse(n.targets[0]) == 'vfield']
+        if len(fresh) != 1 or not ast.unparse(fresh[0].value).startswith('Field(grid'):
+            probs.append(f"{fn}: vfield is not created as one fresh Field(grid, ...)")
+        elif 'data' in ast.unparse(fresh[0].value):
+            probs.append(f"{fn}: vfield is created from existing data")
+        for n in ast.walk(f):
+            if isinstance(n, ast.Return) and n.value is not None and ast.unparse(n.value) != 'vfield' \
+                    and not (isinstance(n.value, (ast.List, ast.Tuple, ast.Name, ast.Constant))
+                             and fn == '_dipole_vector' and ast.unparse(n.value) in ('[vmin, vmax]',)):
+                # inner helper functions of _dipole_vector return index pairs
+                inner = any(isinstance(q, ast.FunctionDef) and q is not f and n in list(ast.walk(q))
+                            for q in ast.walk(f))
+                if not inner:
+                    probs.append(f"{fn} returns {ast.unparse(n.value)[:60]}")
+    return sorted(set(probs))
+
+
+def hist_grid2(g):
+    """Second grid of the same extent: widths reversed, first cell split in two."""
+    hs = []
+    for h in g['h']:
+        r = list(reversed(h))
+        hs.append([r[0] / 2, r[0] / 2] + r[1:])
+    nodes = []
+    for o, h in zip(g['origin'], hs):
+        nd = [o]
+        for w in h:
+            nd.append(nd[-1] + w)
+        nodes.append(nd)
+    return {'h': hs, 'origin': list(g['origin']), 'nodes': nodes, 'shape': [len(h) for h in hs],
+            'large': g.get('large', False)}
+
+
+def gen_hist_case(rng, i):
+    kind = ['dipole', 'mag', 'wire'][i % 3]
+    large = (i % 4 == 3) and (kind != 'dipole' or not close_defect_reproduces())
+    g1 = gen_grid(rng, False, large)
+    g2 = hist_grid2(g1)
+    c = {'kind': kind, 'grids': [g1, g2]}
+    if kind == 'mag':
+        c['coo'], c['area'], c['pts'] = gen_mag(rng, g1)
+    elif kind == 'wire':
+        c['pts'] = gen_points(rng, g1, rng.choice(['wire', 'cable']), allow_upper=False)
+    else:
+        c['pts'] = gen_points(rng, g1, rng.choice(['generic', 'nodes', 'axis']), allow_upper=False)
+    cplx = (i % 5 == 4)
+    st = rng.choice(REAL_STRENGTHS)
+    c['strength'] = [float(st), rng.choice([2.0, -0.5, 1.25]) if cplx else 0.0]
+    c['cplx'] = cplx
+    fa, fa2, fb, fb2 = (-rng.randint(1, 64) / 8, -rng.randint(65, 128) / 8, rng.randint(1, 64) / 8,
+                        rng.randint(65, 128) / 8)
+    R, Ed = (lambda g, f: ['req', g, f]), (lambda k, e: ['edit', k, e])
+    if cplx:        # real-valued requests raise (numpy cast); the instance must stay usable
+        ops = [R(0, None), R(0, fb), R(0, fa), R(0, fb), Ed(1, 'times2'), R(1, fb), R(0, fb), R(0, fb2)]
+    else:
+        ops = [
+            [R(0, None), R(0, None), R(0, fb), R(1, None), R(0, fa), Ed(0, 'times2'), R(0, None), R(0, fb)],
+            [R(0, fa), R(0, fb), R(0, fa), Ed(2, 'fill7'), R(0, None), R(1, fa), R(0, fa), R(0, fa2)],
+            [R(0, fb), R(0, None), Ed(1, 'times2'), R(0, None), R(1, fb), R(0, fb), R(0, fa), R(0, fa)],
+            [R(1, None), R(0, None), R(1, None), R(0, fa), Ed(3, 'zero'), R(0, fa), R(0, fb), R(1, fa)],
+        ][i % 4]
+    nreq = sum(1 for o in ops if o[0] == 'req')
+    for _ in range(rng.randint(1, 3)):          # random tail
+        if rng.random() < 0.3 and not cplx:
+            ops.append(Ed(rng.randrange(nreq), rng.choice(HIST_EDITS)))
+        else:
+            ops.append(R(rng.randrange(2), rng.choice([None, fa, fa2, fb] if not cplx else [fb, fb2, fa])))
+            nreq += 1
+    c['ops'] = ops
+    c['via'] = [rng.choice(['method', 'function']) for _ in ops]
+    return c
+
+
+def hist_source(c):
+    import emg3d
+    st = complex(*c['strength']) if c['cplx'] else c['strength'][0]
+    if c['kind'] == 'mag':
+        return emg3d.TxMagneticDipole(tuple(c['coo']), strength=st, length=c['area'])
+    if c['kind'] == 'wire':
+        return emg3d.TxElectricWire(np.array(c['pts'], float), strength=st)
+    return emg3d.TxElectricDipole(np.array(c['pts'], float), strength=st)
+
+
+def reachable_arrays(obj, depth=4, seen=None):
+    """All ndarrays reachable from an object's attributes (generic: no attribute names assumed)."""
+    seen = seen if seen is not None else set()
+    out = []
+    if id(obj) in seen or depth < 0:
+        return out
+    seen.add(id(obj))
+    if isinstance(obj, np.ndarray):
+        return [obj]
+    if isinstance(obj, dict):
+        items = list(obj.values())
+    elif isinstance(obj, (list, tuple, set)):
+        items = list(obj)
+    elif hasattr(obj, '__dict__') and not isinstance(obj, type) and not callable(obj):
+        items = list(vars(obj).values())
+        if hasattr(obj, 'field') and not isinstance(obj, np.ndarray):
+            try:
+                items.append(obj.field)
+            except Exception:      # noqa
+                pass
+    else:
+        return out
+    for it in items:
+        out += reachable_arrays(it, depth - 1, seen)
+    return out
+
+
+def hist_run_impl(c):
+    """Drive ONE source instance through the history.  Per op: for a request the field as returned (copy),
+    dtype, alias / mutation findings; at the end the current contents of every returned array."""
+    import emg3d
+    grids = [mesh(g) for g in c['grids']]
+    src = hist_source(c)
+    recs, returned = [], []
+    known = {}                              # id(array) -> (array, contents when first seen)
+    for op, via in zip(c['ops'], c['via']):
+        if op[0] == 'edit':
+            fld = returned[op[1]] if op[1] < len(returned) else None
+            if fld is not None:
+                if op[2] == 'times2':
+                    fld.field *= 2
+                elif op[2] == 'fill7':
+                    fld.field[:] = 7
+                else:
+                    fld.fx[...] = 0
+                    fld.fy[...] = 0
+                    fld.fz[...] = 0
+            recs.append({'op': op})
+            continue
+        rec = {'op': op}
+        with warnings.catch_warnings(record=True) as w:
+            warnings.simplefilter('always')
+            try:
+                if via == 'method':
+                    sf = src.get_field(grids[op[1]], op[2])
+                else:
+                    sf = emg3d.get_source_field(grids[op[1]], src, op[2])
+            except Exception as e:      # noqa
+                rec['err'] = f"{type(e).__name__}: {e}"[:120]
+                returned.append(None)
+                recs.append(rec)
+                continue
+        rec['nwarn'] = sum('Normalizing' in str(x.message) for x in w)
+        rec['f'] = [np.array(sf.fx), np.array(sf.fy), np.array(sf.fz)]
+        rec['dtype'] = str(sf.field.dtype)
+        internal = reachable_arrays(src)
+        rec['alias_internal'] = any(np.shares_memory(sf.field, a) for a in internal)
+        rec['alias_returned'] = any(r is not None and np.shares_memory(sf.field, r.field) for r in returned)
+        changed = False
+        for a in internal:
+            if id(a) in known and known[id(a)][0] is a:
+                if not np.array_equal(known[id(a)][1], a, equal_nan=True):
+                    changed = True
+            known[id(a)] = (a, a.copy())
+        rec['internal_changed'] = changed
+        returned.append(sf)
+        recs.append(rec)
+    finals = [None if r is None else [np.array(r.fx), np.array(r.fy), np.array(r.fz)] for r in returned]
+    return recs, finals
+
+
+def hist_brief(c):
+    return {'kind': 'history/' + c['kind'], 'grids': [{'h': g['h'], 'origin': g['origin']} for g in c['grids']],
+            'source': c.get('coo') or c['pts'], 'area': c.get('area'), 'strength': c['strength'],
+            'ops (grid index, frequency | edit k-th returned field)': c['ops'], 'via': c['via']}
+
+
+def hist_nominal(c, gi, f):
+    """('sum'|'moment', required vector) of one request, from the inputs only."""
+    from scipy.special import cosdg, sindg
+    st = complex(*c['strength'])
+    fac = scale_factor(st, f)
+    if c['kind'] == 'mag':
+        az, el = c['coo'][3], c['coo'][4]
+        rot = np.array([cosdg(az) * cosdg(el), sindg(az) * cosdg(el), sindg(el)])
+        return 'moment', fac * c['area'] * rot, fac
+    return 'sum', fac * (np.array(c['pts'][-1]) - np.array(c['pts'][0])), fac
+
+
+def apply_edit(arrs, e):
+    if e == 'times2':
+        return [a * 2 for a in arrs]
+    return [np.full_like(a, 7 if e == 'fill7' else 0) for a in arrs]
+
+
+def check_hist_property(c, run=None, strict_alias=False):
+    """Independent oracle on a history: every request gives the nominal moment, equals the result of a FRESH
+    instance for the same (grid, source, frequency), does not alias / mutate the instance's state, and the
+    returned arrays change only through the caller's own edits.  Returns a hit dict or None."""
+    recs, finals = run or hist_run_impl(c)
+    base = {'history_case': c}
+    expect = []                 # contents the caller must see in each returned array
+    nreq = 0
+    alias_hit = None
+    for k, rec in enumerate(recs):
+        op = rec['op']
+        if op[0] == 'edit':
+            if op[1] < len(expect) and expect[op[1]] is not None:
+                expect[op[1]] = apply_edit(expect[op[1]], op[2])
+            continue
+        nreq += 1
+        real_req = op[2] is None or op[2] < 0
+        where = {'op_index': k, 'request': op, 'requests_before': [r['op'] for r in recs[:k]]}
+        if 'err' in rec:
+            expect.append(None)
+            if c['cplx'] and real_req:
+                continue            # documented numpy behaviour: complex strength on a real-valued field
+            return dict(base, signature='get_source_field raises on a re-used source instance', **where,
+                        observed=rec['err'])
+        expect.append([a.copy() for a in rec['f']])
+        what, want, fac = hist_nominal(c, op[1], op[2])
+        seg = max([abs(b_ - a) for p_, q_ in zip(c['pts'][:-1], c['pts'][1:]) for a, b_ in zip(p_, q_)] + [0.05])
+        wscale = max(float(np.max(np.abs(want))), abs(fac) * seg * 0.05)
+        f = rec['f']
+        got = (np.array([a.sum() for a in f]) if what == 'sum' else disc_moment(c['grids'][op[1]], f))
+        tol = 1e-7 * wscale * (100.0 if c['grids'][0].get('large') else 1.0)
+        if what == 'moment' and max(abs(a.sum()) for a in f) > tol:
+            return dict(base, signature='history: magnetic dipole loop is not closed (non-zero total moment)',
+                        **where, observed=[str(a.sum()) for a in f])
+        if not np.max(np.abs(got - want)) <= tol:
+            return dict(base, signature='history: source field of a re-used source instance differs from '
+                                        'strength*(-s mu0)*nominal moment', **where,
+                        observed=[str(x) for x in got], required=[str(x) for x in want])
+        # function of (grid, source, frequency): same as a fresh instance
+        import emg3d
+        fresh = emg3d.get_source_field(mesh(c['grids'][op[1]]), hist_source(c), op[2])
+        ff = [np.array(fresh.fx), np.array(fresh.fy), np.array(fresh.fz)]
+        err = max(float(np.max(np.abs(a - b))) if a.size else 0.0 for a, b in zip(f, ff))
+        ref = max(max(float(np.max(np.abs(a))) if a.size else 0.0 for a in ff), 1e-300)
+        if not err <= 1e-12 * ref or rec['dtype'] != str(fresh.field.dtype):
+            return dict(base, signature='history: result depends on earlier requests on the same source instance '
+                                        '(differs from a fresh instance)', **where,
+                        observed_max_abs_difference=err, fresh_max_abs=ref)
+        if alias_hit is None and (rec['alias_internal'] or rec['alias_returned'] or rec['internal_changed']):
+            alias_hit = dict(base, signature='history: returned field aliases / mutates state kept with the '
+                                             'source instance or an earlier returned field', **where,
+                             observed={k_: rec[k_] for k_ in ('alias_internal', 'alias_returned',
+                                                               'internal_changed')})
+    for k, (e, fin) in enumerate(zip(expect, finals)):
+        if e is None:
+            continue
+        err = max(float(np.max(np.abs(a - b))) if a.size else 0.0 for a, b in zip(e, fin))
+        ref = max(max(float(np.max(np.abs(a))) if a.size else 0.0 for a in e), 1e-300)
+        if not err <= 1e-12 * ref:
+            return dict(base, signature='history: a returned field was changed by later requests',
+                        returned_index=k, observed_max_abs_difference=err)
+    # aliasing alone (all results still right) is a finding of the correspondence, not a property failure
+    return alias_hit if strict_alias else None
+
+
+def coq_hist_case(k, c, clamp):
+    import scipy.constants as sc
+    L = []
+    for t, g in zip('ab', c['grids']):
+        sh = [fshape(g['shape'], comp) for comp in range(3)]
+        L.append(f"Definition G{k}{t} := {coq_grid(g)}.")
+        L.append(f"Definition R{k}{t} := Eval vm_compute in dipole_vector Qle_bool {V.coq_bool(clamp)} G{k}{t} "
+                 f"[{'; '.join(coq_p3(p) for p in c['pts'])}].")
+        L.append(f"Definition U{k}{t} : list (option (Q * Q)) := Eval vm_compute in "
+                 f"map (fun v : Q => Some (Qred v, 0%Q)) ("
+                 + ' ++ '.join(f"res_dump (fun v : Q => v) R{k}{t} {comp} {s_[0]} {s_[1]} {s_[2]}"
+                               for comp, s_ in enumerate(sh)) + ").")
+    st = c['strength']
+    L.append(f"Definition SC{k} (f : option Q) (vec : list (option (Q * Q))) : list (option (Q * Q)) := "
+             f"map (fun o => match o with Some (a, b) => if Qeq_bool b 0 then "
+             f"source_scale Qle_bool {V.q(math.pi)} {V.q(sc.mu_0)} f ({V.q(st[0])}, {V.q(st[1])}) "
+             f"{V.coq_bool(c['cplx'])} a else None | None => None end) vec.")
+    ops = []
+    for op in c['ops']:
+        if op[0] == 'req':
+            fq = 'None' if op[2] is None else f"(Some {V.q(op[2])})"
+            ops.append(f"Request bool (option Q) nat {V.coq_bool(op[1] == 1)} {fq}")
+        else:
+            ops.append(f"Edit bool (option Q) nat {op[1]}%nat {HIST_EDITS.index(op[2])}%nat")
+    L.append(f"Definition OPS{k} := [{'; '.join(ops)}].")
+    L.append(f"Definition RUN{k} := run bool (option Q) nat (list (option (Q * Q))) Bool.eqb hs_real "
+             f"(fun g : bool => if g then U{k}b else U{k}a) SC{k} hs_edit false false "
+             f"(st0 bool (list (option (Q * Q))) []) OPS{k}.")
+    # one answer per request (a single string for the whole history overflowed the VM stack on larger grids)
+    L.append(f"Definition OBS{k} := Eval vm_compute in snd RUN{k}.")
+    L.append(f"Definition FIN{k} := Eval vm_compute in map (heap _ _ (fst RUN{k})) (outs _ _ (fst RUN{k})).")
+    nreq = 0
+    for q, op in enumerate(c['ops']):
+        if op[0] == 'req':
+            L.append(f"Eval vm_compute in match nth_error OBS{k} {q}%nat with Some (Some v) => sjoin (map cstr v) "
+                     f"| _ => EmptyString end.")
+            nreq += 1
+    for r in range(nreq):
+        L.append(f"Eval vm_compute in match nth_error FIN{k} {r}%nat with Some v => sjoin (map cstr v) "
+                 f"| _ => EmptyString end.")
+    return '\n'.join(L)
+
+
+HIST_HEADER = """Definition hs_real (f : option Q) : bool := match f with None => true | Some x => Qle_bool x 0 end.
+Definition hs_edit (e : nat) (vec : list (option (Q * Q))) : list (option (Q * Q)) :=
+  match e with
+  | O => map (option_map (fun c : Q * Q => ((2 # 1) * fst c, (2 # 1) * snd c)%Q)) vec
+  | S O => map (fun _ => Some ((7 # 1)%Q, 0%Q)) vec
+  | _ => map (fun _ => Some (0%Q, 0%Q)) vec
+  end.
+"""
+
+
+def corr_hist(ctx, n, dis, hist, samples, clamp):
+    rng = ctx.rng
+    for p_ in anchor_stateless():
+        dis.append({'what': 'model tie (Model/SourceHist.v, memo = false): get_source_field is no longer '
+                            'stateless / fresh-array code: ' + p_})
+    cases = [gen_hist_case(rng, i) for i in range(n)]
+    texts = []
+    for b, chunk in enumerate(batches(list(enumerate(cases)), PER_FILE['hs'])):
+        texts.append((f"c10_hs_{b}", HEADER + HIST_HEADER + '\n'.join(
+            coq_hist_case(k, c, clamp) for k, c in chunk) + '\n'))
+    res = yield texts
+    nev, nontriv = 0, set()
+    for b, chunk in enumerate(batches(list(enumerate(cases)), PER_FILE['hs'])):
+        rc, out = res[f"c10_hs_{b}"]
+        if rc != 0:
+            dis.append({'what': 'SourceHist machine does not evaluate (history cases)', 'log': out[-1500:]})
+            continue
+        ans = V.eval_answers(out)
+        apos = 0
+        for j, (k, c) in enumerate(chunk):
+            brief = hist_brief(c)
+            if len(samples) < 14 and k % 4 == 0:
+                samples.append(brief)
+            nrq = sum(1 for o in c['ops'] if o[0] == 'req')
+            mobs, mfin, r_ = [], [], 0
+            for o in c['ops']:
+                mobs.append(fx_cvals(ans[apos + r_]) if o[0] == 'req' else [])
+                r_ += int(o[0] == 'req')
+            mfin = [fx_cvals(ans[apos + nrq + r]) for r in range(nrq)]
+            apos += 2 * nrq
+            run = hist_run_impl(c)
+            recs, finals = run
+            hit = check_hist_property(c, run, strict_alias=True)
+            if hit:
+                dis.append({'what': 'history stream: ' + hit['signature'], 'case': brief,
+                            'impl': hit.get('observed', hit.get('observed_max_abs_difference')),
+                            'model': hit.get('required'), 'op_index': hit.get('op_index')})
+            st = complex(*c['strength'])
+            seg = max([abs(b_ - a) for p_, q_ in zip(c['pts'][:-1], c['pts'][1:]) for a, b_ in zip(p_, q_)]
+                      + [0.05])
+            ireq = 0
+            seen_modes = []
+            for q, rec in enumerate(recs):
+                op = rec['op']
+                hk = f"history/{'large/' if c['grids'][0].get('large') else ''}{c['kind']}/" + (
+                    'edit' if op[0] == 'edit' else
+                    'req_none' if op[2] is None else 'req_laplace' if op[2] < 0 else 'req_freq')
+                hist[hk] = hist.get(hk, 0) + 1
+                if op[0] == 'edit':
+                    seen_modes.append('e')
+                    continue
+                nev += 1
+                seen_modes.append('r' if (op[2] is None or op[2] < 0) else 'c')
+                mv = mobs[q] if q < len(mobs) else []
+                merr = any(x is None for x in mv)
+                if merr != ('err' in rec):
+                    dis.append({'what': 'history stream: error behaviour of a request differs from the model',
+                                'case': brief, 'op_index': q, 'impl': rec.get('err', 'returns a field'),
+                                'model': 'raises' if merr else 'returns a field'})
+                    ireq += 1
+                    continue
+                for tag, mvec, ivec in (('returned field', mv, None if merr else rec['f']),
+                                        ('returned field at the end of the history',
+                                         mfin[ireq] if ireq < len(mfin) else [], finals[ireq])):
+                    if merr or ivec is None:
+                        continue
+                    iv = np.concatenate([a.ravel() for a in ivec])
+                    fac = abs(scale_factor(st, op[2]))
+                    scale = max(float(np.max(np.abs(iv))) if iv.size else 0.0,
+                                max([abs(x) for x in mvec if x is not None] + [0.0]), fac * seg * 0.05, 1e-300)
+                    if c['grids'][0].get('large'):
+                        scale *= 1000.0
+                    if c['kind'] == 'mag':
+                        scale *= 1000.0     # loop points are oracle-derived floats
+                    bad = None
+                    if len(iv) != len(mvec):
+                        bad = f"size {len(iv)} vs {len(mvec)}"
+                    else:
+                        for z in range(len(iv)):
+                            if mvec[z] is None or not abs(complex(iv[z]) - mvec[z]) <= 1e-9 * scale:
+                                bad = f"flat index {z}: impl {iv[z]!r} model {mvec[z]!r}"
+                                break
+                    if bad is None and tag == 'returned field' and \
+                            rec['dtype'] != ('float64' if (op[2] is None or op[2] < 0) else 'complex128'):
+                        bad = f"dtype {rec['dtype']}"
+                    if bad:
+                        dis.append({'what': f'history stream: {tag} differs from the SourceHist machine '
+                                            '(= scale f (dipole_vector grid source))',
+                                    'case': brief, 'op_index': q, 'request': op, 'detail': bad})
+                        break
+                ireq += 1
+            nontriv.add((c['kind'], c['cplx'], bool(c['grids'][0].get('large')), ''.join(seen_modes)))
+    return nev, len(nontriv)
+
+
 # --------------------------------------------------------------- correspondence
+def STREAMS(ctx, clamp):
+    """[(name, run(dis, hist, samples) -> (evaluations, distinct non-trivial))] in run order."""
+    t = ctx.thorough
+    return [
+        ('dipole', lambda d, h, s: corr_dipole(ctx, 315 if t else 105, d, h, s, clamp)),
+        ('point', lambda d, h, s: corr_point(ctx, 160 if t else 40, d, h, s)),
+        ('gsf', lambda d, h, s: corr_gsf(ctx, 120 if t else 40, d, h, s, clamp)),
+        ('conv', lambda d, h, s: corr_conv(ctx, 300 if t else 75, d, h, s)),
+        ('forms', lambda d, h, s: corr_forms(ctx, 96 if t else 32, d, h, s, clamp)),
+        ('hist', lambda d, h, s: corr_hist(ctx, 32 if t else 8, d, h, s, clamp)),
+    ]
+
+
+def run_streams(ctx, clamp, dis, hist, samples, only=None):
+    """Every stream is a generator: it yields its Coq case files and is sent their results.  The case files of
+    ALL streams are evaluated in one parallel batch; the comparisons then run stream by stream."""
+    gens, texts = [], []
+    for name, mk in STREAMS(ctx, clamp):
+        if only and name not in only:
+            continue
+        g = mk(dis, hist, samples)
+        gens.append((name, g))
+        texts.append(next(g))
+    res = V.coq_eval_many([t for tl in texts for t in tl])
+    tot = {}
+    for (name, g), tl in zip(gens, texts):
+        try:
+            g.send({n_: res[n_] for n_, _ in tl})
+            raise RuntimeError(f"stream {name} yielded twice")
+        except StopIteration as e:
+            tot[name] = e.value
+    return tot
+
+
 def correspondence(ctx):
     clamp = impl_variant()
     ctx.notes.append("min_max_ind variant of the current source: "
                      + ("clamped (repaired)" if clamp else "pinned (upper-plane segments visit no cell)"))
     dis, hist, samples = [], {}, []
-    t = ctx.thorough
-    n1, d1 = corr_dipole(ctx, 315 if t else 105, dis, hist, samples, clamp)
-    n2, d2 = corr_point(ctx, 160 if t else 40, dis, hist, samples)
-    n3, d3 = corr_gsf(ctx, 120 if t else 40, dis, hist, samples, clamp)
-    n4, d4 = corr_conv(ctx, 300 if t else 75, dis, hist, samples)
-    n5, d5 = corr_forms(ctx, 96 if t else 32, dis, hist, samples, clamp)
-    n1, d1 = n1 + n5, d1 + d5
+    tot = run_streams(ctx, clamp, dis, hist, samples)
+    n1, d1 = (tot['dipole'][0] + tot['forms'][0] + tot['hist'][0],
+              tot['dipole'][1] + tot['forms'][1] + tot['hist'][1])
+    n2, d2 = tot['point']
+    n3, d3 = tot['gsf']
+    n4, d4 = tot['conv']
     return {
         'evaluations': n1 + n2 + n3 + n4,
         'distinct_nontrivial': d1 + d2 + d3 + d4,
@@ -1301,7 +1919,14 @@ def correspondence(ctx):
                 "keywords (non-default real and complex strength, length != 1); each form is compared with "
                 "the model (plain_points -> dipole_vector -> source_scale), with the Tx-instance form and "
                 "with the nominal moment (component sums / discrete magnetic moment 1/2 sum r x j); "
-                "evaluations count one per form",
+                "evaluations count one per form. histories: ONE source instance (dipole / magnetic loop / wire, "
+                "strength != 1, every 5th complex) driven through 9-11 operations: requests on two grids with "
+                "frequency None / Laplace / > 0 through source.get_field and emg3d.get_source_field, and in-place "
+                "edits of previously returned fields; every returned field, and every returned field again at "
+                "the end of the history, is compared with the SourceHist machine run in Coq (vecof = "
+                "dipole_vector, scale = source_scale), with the nominal moment, with a fresh instance, and "
+                "tested for aliasing (np.shares_memory) with arrays reachable from the instance; evaluations "
+                "count one per request",
         'samples': samples[:10],
         'traces_validated_against_impl': n1 + n2 + n3 + n4,
         'histogram': hist,
@@ -1440,30 +2065,58 @@ def check_conv_property(c):
     p = np.array([c['p0'], c['p1']], float)
     az, el, ln = E.dipole_to_point(p)
     back = E.point_to_dipole(np.array(list(p.sum(0) / 2) + [az, el]), ln)
-    scale = max(1.0, float(np.max(np.abs(p))))
-    if not np.max(np.abs(back - p)) <= 1e-9 * scale:
+    tol = conv_tol(c, p.ravel())
+    if not np.max(np.abs(back - p)) <= tol:
         return {'signature': 'electrodes -> (centre, az, el, length) -> electrodes is not the identity',
                 'observed': back.tolist(), 'required': p.tolist()}
+    # the same round trip through the public classes: two-electrode form -> instance (azimuth, elevation,
+    # length, centre) -> point form -> electrodes
+    if c['p0'] != c['p1']:
+        try:
+            d = E.TxElectricDipole(p)
+            d2 = E.TxElectricDipole((c['p0'][0], c['p1'][0], c['p0'][1], c['p1'][1], c['p0'][2], c['p1'][2]))
+            E.TxMagneticDipole(p)
+        except ValueError as e:
+            if 'identical' in str(e):
+                return {'signature': SIG_CLOSE, 'observed': 'ValueError: ' + str(e)[:60],
+                        'required': 'a dipole with electrodes ' + str(p.tolist()),
+                        'electrode_distance_m': float(np.linalg.norm(p[1] - p[0]))}
+            return {'signature': 'Tx*Dipole rejects a valid two-electrode input', 'observed': str(e)[:120]}
+        if not (np.array_equal(d.points, p) and np.array_equal(d2.points, p)):
+            return {'signature': 'Tx*Dipole(two electrodes).points differs from the electrodes given',
+                    'observed': d.points.tolist(), 'required': p.tolist()}
+        ctr = (p[0] + p[1]) / 2
+        d3 = E.TxElectricDipole((*ctr, d.azimuth, d.elevation), length=d.length)
+        if not np.max(np.abs(d3.points - p)) <= tol:
+            return {'signature': 'electrodes -> (centre, az, el, length) -> electrodes is not the identity',
+                    'via': 'TxElectricDipole', 'observed': d3.points.tolist(), 'required': p.tolist()}
+        q = p + np.array([0.0, 0.0, 0.0]) + (p[1] - p[0])       # the same dipole shifted by its own length
+        if d == E.TxElectricDipole(q):
+            return {'signature': SIG_CLOSE, 'observed': 'two sources one dipole length apart compare equal (==)',
+                    'required': 'different electrodes are different sources',
+                    'electrode_distance_m': float(np.linalg.norm(p[1] - p[0])), 'other': q.tolist()}
     d1 = E.point_to_dipole(np.array(c['c'] + [c['az'], c['el']]), c['len'])
     a2, e2, l2 = E.dipole_to_point(d1)
     d2 = E.point_to_dipole(np.array(list(d1.sum(0) / 2) + [a2, e2]), l2)
-    if not np.max(np.abs(d2 - d1)) <= 1e-9 * max(1.0, float(np.max(np.abs(d1)))):
+    if not np.max(np.abs(d2 - d1)) <= conv_tol(c, d1.ravel()):
         return {'signature': 'point form -> electrodes -> point form -> electrodes changes the electrodes',
                 'observed': d2.tolist(), 'required': d1.tolist()}
     lp = E.point_to_square_loop(np.array(c['c'] + [c['az'], c['el']]), c['len'])
     rot = E.rotation(c['az'], c['el'])
     ctr = np.array(c['c'])
-    sc_ = max(1.0, float(np.max(np.abs(lp))))
+    ulp = 16 * 2.3e-16 * max(1.0, float(np.max(np.abs(lp))))       # rounding of the absolute coordinates
+    tol1 = 1e-9 * max(1.0, c['len']) + ulp
+    tol2 = 1e-9 * max(1.0, c['len']) + 4 * max(1.0, c['len'] ** 0.5) * ulp
     hit = None
-    if lp.shape != (5, 3) or not np.allclose(lp[0], lp[4], atol=1e-12):
+    if lp.shape != (5, 3) or not np.max(np.abs(lp[0] - lp[4])) <= ulp:
         hit = 'loop not closed'
-    elif np.max(np.abs((lp - ctr) @ rot)) > 1e-9 * sc_:
+    elif np.max(np.abs((lp - ctr) @ rot)) > tol1:
         hit = 'loop not in the plane orthogonal to the dipole'
     else:
         sides = np.diff(lp, axis=0)
-        if np.max(np.abs(np.sum(sides**2, 1) - c['len'])) > 1e-9 * max(1.0, c['len']):
+        if np.max(np.abs(np.sum(sides**2, 1) - c['len'])) > tol2:
             hit = 'loop side^2 differs from the area'
-        elif np.max(np.abs(np.cross(sides[0], sides[1]) - c['len'] * rot)) > 1e-9 * max(1.0, c['len']):
+        elif np.max(np.abs(np.cross(sides[0], sides[1]) - c['len'] * rot)) > tol2:
             hit = 'loop normal (right-hand rule) differs from area * rotation(az, el)'
     if hit:
         return {'signature': 'magnetic dipole loop: ' + hit, 'observed': lp.tolist()}
@@ -1514,6 +2167,14 @@ def search(ctx, broken):
                             for k_, v_ in fc['kw'].items()}
                 hits.append(dict(h, form_case=jc))
                 break
+        if i % 6 == 1:
+            # request histories on ONE source instance (results must not depend on the history)
+            hc = gen_hist_case(rng, i // 6 + rng.randrange(12))
+            h = check_hist_property(hc)
+            counts['history'] = counts.get('history', 0) + 1
+            if h:
+                hits.append(h)
+                break
         if i % 3 == 0:
             coo = point(rng, g, [rng.choice(['generic', 'node', 'centre', 'first', 'last'])
                                  for _ in range(3)]) + [gen_angle(rng, False), gen_angle(rng, True)]
@@ -1532,11 +2193,16 @@ def search(ctx, broken):
                 hits.append(dict(h, h=g['h'], origin=g['origin'], points=pts, strength=str(st),
                                  frequency=fq))
                 break
-            c = gen_conv_case(rng)
+            c = gen_conv_case(rng, proj=(counts['conv'] % 2 == 1))
             if c['t'] != 'tx_same':
                 h = check_conv_property(c)
                 counts['conv'] += 1
-                if h:
+                counts['conv_projected'] = counts.get('conv_projected', 0) + int(c['proj'])
+                if h and h['signature'] == SIG_CLOSE:
+                    # reported by known_checks as well; keep ONE concrete input and go on searching
+                    if not any(x.get('signature') == SIG_CLOSE for x in hits):
+                        hits.append(dict(h, case=c))
+                elif h:
                     hits.append(dict(h, case=c))
                     break
     ctx.notes.append(f"searcher: {counts} cases against the independent oracle")
@@ -1547,6 +2213,8 @@ def replay(ctx, payload):
     fi = payload.get('failing_input')
     if not fi:
         return False
+    if 'history_case' in fi:
+        return check_hist_property(fi['history_case']) is None
     if 'form_case' in fi:
         fc = dict(fi['form_case'])
         if isinstance(fc['strength'], str):
@@ -1563,9 +2231,12 @@ def replay(ctx, payload):
         g['nodes'] = [[o + sum(h[:k]) for k in range(len(h) + 1)] for o, h in zip(fi['origin'], fi['h'])]
         return check_point_property(g, fi['coordinates']) is None
     if 'case' in fi:
+        fi['case'].setdefault('proj', False)
         return check_conv_property(fi['case']) is None
     if fi.get('signature') == SIG_UPPER:
         return not upper_defect_reproduces()
+    if fi.get('signature') == SIG_CLOSE:
+        return not close_defect_reproduces()
     return False
 
 
@@ -1575,9 +2246,23 @@ def upper_defect_reproduces():
     return check_dipole_property(g, pts) is not None
 
 
+def close_defect_reproduces():
+    """A 50 m dipole at projected coordinates (x 5e5, y 6e6) is refused as 'identical electrodes'."""
+    import emg3d
+    try:
+        s_ = emg3d.TxElectricDipole((500000., 500000., 6000000., 6000050., -100., -100.))
+    except ValueError as e:
+        return 'identical' in str(e)
+    return not np.array_equal(s_.points, [[500000., 6000000., -100.], [500000., 6000050., -100.]])
+
+
 def known_checks(ctx):
     rep = upper_defect_reproduces()
     if rep:
         ctx.notes.append("defect reproduces: grid 2x2x2 (h=1, origin 0), dipole (0.5,2,0.5)->(1.5,2,0.5): "
                          "vector is NaN after 'Normalizing Source: 0.0'")
-    return [(SIG_UPPER, rep, WHAT_UPPER)]
+    rep2 = close_defect_reproduces()
+    if rep2:
+        ctx.notes.append("defect reproduces: TxElectricDipole((500000, 500000, 6000000, 6000050, -100, -100)) "
+                         "raises 'The two electrodes are identical' for electrodes 50 m apart")
+    return [(SIG_UPPER, rep, WHAT_UPPER), (SIG_CLOSE, rep2, WHAT_CLOSE)]
